@@ -189,7 +189,7 @@ pub fn rolling(prop: &'static str, name: String, params: Value) -> Scenario {
         let removal_seen = chz.choose(2) == 1;
         let mut sys = Sys::new(prop, &name, chz);
         sys.params = params.clone();
-        sys.m.check_client_acks = false;
+        sys.m.check_client_acks = prop == "C08";
         sys.bring_up(vec![]);
         // (stream index, subscription identifier) of the live ones, oldest first
         let mut live: Vec<(usize, u32)> = vec![];
@@ -257,6 +257,13 @@ pub fn rolling(prop: &'static str, name: String, params: Value) -> Scenario {
             }
             let all: Vec<u32> = live.iter().map(|x| x.1).collect();
             sys.apply(Ev::Deliver(inbound(0, false, 0, &all, &format!("a{}", round))));
+            // (one message for every live subscription, to be acknowledged: QoS 1 / QoS 2 by turns)
+            if round % 2 == 0 {
+                sys.apply(Ev::Deliver(inbound(1, false, 60, &all, &format!("q{}", round))));
+            } else {
+                sys.apply(Ev::Deliver(inbound(2, false, 61, &all, &format!("q{}", round))));
+                sys.apply(Ev::Deliver(pubrel_in(61)));
+            }
             sys.apply(Ev::Deliver(inbound(0, false, 0, &[gone], &format!("late{}", round))));
         }
         sys.finish();
